@@ -20,7 +20,9 @@ echo "$base" | grep -q "^ok" && BASE_OK=1 || BASE_OK=0
 with=$(cd "$W" && go test -count=1 -vet=off -timeout 120s -run "^${TESTNAME}\$" "./$PKG" 2>&1 | tail -5)
 echo "$with" | grep -q "^ok" && WITH_FAILS=0 || WITH_FAILS=1
 rm "$W/$PKG/zz_seed_demo_test.go"
-suite=$(cd "$W" && go test -count=1 -vet=off -timeout 15m -run "$TESTS" "./$PKG" 2>&1 | tail -3)
+# the suite binds fixed TCP ports: run it in a private network namespace so that neither other
+# test runs nor TIME_WAIT sockets make it fail for unrelated reasons
+suite=$(cd "$W" && unshare -n -- bash -c "ip link set lo up 2>/dev/null; go test -count=1 -vet=off -timeout 15m -run '$TESTS' './$PKG'" 2>&1 | tail -3)
 echo "$suite" | grep -q "^ok" && SUITE_OK=1 || SUITE_OK=0
 echo "demo on unchanged tree passes: $BASE_OK; demo with change fails: $WITH_FAILS; existing tests pass with change: $SUITE_OK"
 # run the check against /repo with the change applied
